@@ -28,6 +28,21 @@ pub static EXPAND: [AtomicU64; N_STAGES] = [Z; N_STAGES];
 pub static PANIC_AT: AtomicU64 = AtomicU64::new(u64::MAX);
 pub static CLOSURE_POINTS: AtomicBool = AtomicBool::new(false);
 pub static N_CALLS: AtomicU32 = AtomicU32::new(0);
+/// at most this many closure entries per thread are scheduling points (0 = all of them)
+pub static CLOSURE_POINTS_LIMIT: AtomicU32 = AtomicU32::new(0);
+/// closures neither log nor note their calls (inputs of millions of elements)
+pub static QUIET: AtomicBool = AtomicBool::new(false);
+/// payload of the injected panic: 0 = formatted String, 1 = &'static str, 2 = a custom type (panic_any)
+pub static FAULT_PAYLOAD: AtomicU32 = AtomicU32::new(0);
+/// predicate by identity instead of by slot mask: the predicate accepts exactly these ids (u64::MAX = unused)
+pub static PRED_IDS: [AtomicU64; 2] = [AtomicU64::new(u64::MAX), AtomicU64::new(u64::MAX)];
+
+thread_local! {
+    static CP_COUNT: std::cell::Cell<u32> = const { std::cell::Cell::new(0) };
+}
+
+#[derive(Debug)]
+pub struct InjectedFault(pub u8, pub u64);
 
 #[derive(Clone, Copy, Debug, PartialEq, Eq, PartialOrd, Ord, Hash)]
 pub struct Call {
@@ -45,6 +60,12 @@ pub fn reset() {
     }
     PANIC_AT.store(u64::MAX, SeqCst);
     CLOSURE_POINTS.store(false, SeqCst);
+    CLOSURE_POINTS_LIMIT.store(0, SeqCst);
+    QUIET.store(false, SeqCst);
+    FAULT_PAYLOAD.store(0, SeqCst);
+    PRED_IDS[0].store(u64::MAX, SeqCst);
+    PRED_IDS[1].store(u64::MAX, SeqCst);
+    CP_COUNT.with(|c| c.set(0));
     N_CALLS.store(0, SeqCst);
     CALLS.lock().unwrap_or_else(|e| e.into_inner()).clear();
 }
@@ -73,6 +94,15 @@ pub fn keep(stage: u8, slot: u8) -> bool {
 pub fn n_children(stage: u8, slot: u8) -> u8 {
     ((EXPAND[stage as usize].load(SeqCst) >> (2 * (slot as u32 & 31))) & 3) as u8
 }
+/// the find / any / all predicate: by identity if PRED_IDS is set, else by slot mask
+pub fn pred_accepts(id: u64, slot: u8) -> bool {
+    let a = PRED_IDS[0].load(SeqCst);
+    if a != u64::MAX {
+        id == a || id == PRED_IDS[1].load(SeqCst)
+    } else {
+        keep(ST_PRED, slot)
+    }
+}
 pub fn child_slot(slot: u8, k: u8) -> u8 {
     ((slot as u32 * 3 + k as u32) & 63) as u8
 }
@@ -88,10 +118,25 @@ impl Drop for Flag {
 
 #[inline]
 fn enter(stage: u8, id: u64) -> Flag {
+    if QUIET.load(SeqCst) {
+        N_CALLS.fetch_add(1, SeqCst);
+        return Flag;
+    }
     let t = sched::current_thread().map(|x| x as u16).unwrap_or(u16::MAX);
     sched::set_flag(true);
     let flag = Flag;
-    if CLOSURE_POINTS.load(SeqCst) {
+    let mut as_point = CLOSURE_POINTS.load(SeqCst);
+    if as_point {
+        let lim = CLOSURE_POINTS_LIMIT.load(SeqCst);
+        if lim > 0 {
+            let n = CP_COUNT.with(|c| {
+                c.set(c.get() + 1);
+                c.get()
+            });
+            as_point = n <= lim;
+        }
+    }
+    if as_point {
         sched::point(OpKind::Closure, stage as i64, id as i64);
     } else {
         sched::note(OpKind::Closure, stage as i64, id as i64);
@@ -100,7 +145,11 @@ fn enter(stage: u8, id: u64) -> Flag {
     CALLS.lock().unwrap_or_else(|e| e.into_inner()).push(Call { stage, id, thread: t });
     let fault = PANIC_AT.load(SeqCst);
     if fault == enc_fault(stage, id) || fault == enc_fault(stage, ANY_ID) || fault == enc_fault(stage, ALL_ID) {
-        panic!("injected fault at stage {} id {:#x}", stage, id);
+        match FAULT_PAYLOAD.load(SeqCst) {
+            0 => panic!("injected fault at stage {} id {:#x}", stage, id),
+            1 => panic!("injected fault"),
+            _ => std::panic::panic_any(InjectedFault(stage, id)),
+        }
     }
     flag
 }
@@ -164,7 +213,7 @@ pub fn r<I: Item>(stage: u8) -> impl Fn(I) -> Result<Tok, u8> + Clone + Send + S
 pub fn pred<I: Item>() -> impl Fn(&I) -> bool + Clone + Send + Sync {
     move |x: &I| {
         let _f = enter(ST_PRED, x.id());
-        keep(ST_PRED, x.slot())
+        pred_accepts(x.id(), x.slot())
     }
 }
 
